@@ -25,6 +25,22 @@ CHECKS = {
    text="ConnMatrix.tla transcribes addConn/delConn/getConn/iterate of the compacting registry (table, reverse index, per-connection position, next-slot pointer, per-row counts); TLC checks faithful-map, count, density and coherence invariants over all add/remove/lookup/iterate sequences; every labelled edge is replayed on the real registry of both builds (gc_opt matrix and default map), also with the real matrix pre-filled so that operations straddle the 65536-entry row boundary.",
    note="Trusted: TLC, Go toolchain. Model dimensions 2x3 (quick) / 3x3 (thorough) stand for 256x65536; observables (lookups of every descriptor, count, visited multiset) are compared, positions are not.",
    tech="TLA+ spec + TLC exhaustive; transition-cover replay of the TLC state graph into the real object (both build variants)"),
+ "C15": dict(cat="model_checking", ref="DESIGN.md §4 C15, §3.5",
+   text="LB.tla states the three policies (round-robin turn, least-connections arg-min, hash as an unknown but functional map into the registered loops); TLC checks range / fairness / functionality exhaustively for small engines; seeded histories of accepts and closes on the real balancers (1..256 loops, IPv4/IPv6-zone/Unix/empty addresses) are validated decision by decision against the spec by TLC.",
+   note="Trusted: TLC. Least-connections is judged at quiescent points; which goroutine runs a connection's callbacks is C05's trace invariant.",
+   tech="TLA+ spec + TLC exhaustive; trace validation of recorded balancer decisions (LBTrace.tla)"),
+ "C16": dict(cat="exploration", ref="DESIGN.md §4 C16, §3.8",
+   text="Addrs.tla is the executable definition of the listen-address grammar with the acceptable outcome classes per string and of the capacity / chunk / loop-count normalisation; TLC evaluates it into tables which are checked against parseProtoAddr, createListeners, NewClient, determineEventLoops and Run; seeded byte-level mutations of the generated strings check totality. No state machine is involved, hence exploration level.",
+   note="Oracle defined in TLA+, evaluated by TLC; not model checking. Coverage-guided fuzzing is not used.",
+   tech="TLA+-defined oracle tables evaluated by TLC, replayed in Go; seeded mutation for totality"),
+ "C17": dict(cat="exploration", ref="DESIGN.md §4 C17",
+   text="(a) conversion vectors (families x ports x zones, invalid lengths, unsupported networks) defined in Addrs.tla and evaluated by TLC are round-tripped through the real conversion functions; (b) the AddrStable invariant of the connection traces (peer's own view of its address vs RemoteAddr/LocalAddr at every callback under churn) is part of the system-level trace validation.",
+   note="(a) is a TLA+-defined oracle, exploration level; zones: loopback interface name and numeric indices without interface.",
+   tech="TLA+-defined oracle tables evaluated by TLC, replayed in Go; trace invariant for address stability"),
+ "C20": dict(cat="exploration", ref="DESIGN.md §4 C20, §3.8",
+   text="Tables.tla defines Ceil/Floor/Closest/IsPowerOfTwo, the size-class function and the GFD layout mathematically; TLC evaluates exact vectors (every n in -3..4100, 2^k+d for k<=62) and the interval table, with an ASSUME that the symbolic rules used above 2^30 agree with the mathematical definitions below; the Go harness checks every vector and sweeps every interval (all points up to 2^31 in the thorough tier, 2^22 plus 200k samples per larger interval in quick).",
+   note="Pure functions: TLA+ serves as the executable definition, nothing is model-checked. ClosestPowerOfTwo domain 1..2^62.",
+   tech="TLA+-defined oracle tables evaluated by TLC, replayed in Go; exhaustive 32-bit sweep against the interval table"),
 }
 NOT_YET = {}
 for i in range(1, 21):
